@@ -383,7 +383,8 @@ def sec_of(pt, compressed=True):
 
 # ---------------------------------------------------------------- token scripts -> bytes
 OPCODES = {"DUP": 0x76, "HASH160": 0xa9, "EQUALVERIFY": 0x88, "CHECKSIG": 0xac, "EQUAL": 0x87,
-           "CHECKMULTISIG": 0xae, "RETURN": 0x6a, "NOP": 0x61, "1NEGATE": 0x4f}
+           "CHECKMULTISIG": 0xae, "RETURN": 0x6a, "NOP": 0x61, "1NEGATE": 0x4f,
+           "VER": 0x62, "IF": 0x63, "NOTIF": 0x64, "VERIF": 0x65}
 OPCODES.update({str(k): 0x50 + k for k in range(1, 17)})
 OPNAMES = {v: ("OP_" + k) for k, v in OPCODES.items()}
 
